@@ -61,9 +61,12 @@ fn build(ctx: &AllCtx, shapes: u64, master: u64) -> (Vec<EFrame>, Vec<(usize, It
     let mut cases: Vec<Case> = all_cases(ctx).into_iter().filter(|c| c.login.is_some()).collect();
     cases.extend(world_cases(ctx));
     for c in &cases {
+        // greedy shape coverage: out of many candidate frames keep those that add new branch/enumerator tokens
+        let mut seen_tokens = std::collections::BTreeSet::new();
         let mut seen = std::collections::BTreeSet::new();
-        for s in 0..shapes * 3 {
-            if seen.len() as u64 >= shapes {
+        let mut kept = 0u64;
+        for s in 0..shapes * 12 {
+            if kept >= shapes {
                 break;
             }
             let mut rng = Rng::new(crate::rng::run_seed(master, &c.label(), 0xC06 + s));
@@ -73,6 +76,15 @@ fn build(ctx: &AllCtx, shapes: u64, master: u64) -> (Vec<EFrame>, Vec<(usize, It
             if !seen.insert(key) {
                 continue;
             }
+            let tokens: Vec<String> = f.shape.split(',').map(|x| x.to_string()).collect();
+            let adds = tokens.iter().any(|t| !seen_tokens.contains(t));
+            if kept > 0 && !adds && s < shapes * 10 {
+                continue;
+            }
+            for t in tokens {
+                seen_tokens.insert(t);
+            }
+            kept += 1;
             let bytes = intact_stream(c, &f);
             let hl = bytes.len() - f.wire_body().len().min(bytes.len());
             let hl = if c.login.is_some() { 0 } else { hl };
